@@ -81,6 +81,7 @@ def run(tier):
     samples, inconclusive, violations = [], [], []
     disagreements = 0
     traces = 0
+    gaps_run = 0
     programs = 0
     rspecs = LX.random_specs(K.seed() + 17, 40 if tier == "quick" else 600)
     rnames = {x.name for x in rspecs}
@@ -157,6 +158,25 @@ def run(tier):
                 inconclusive.append("%s: z3 gave no answer within the timeout (L=%d)" % (spec.name, Lmax))
             else:
                 programs -= 1     # an undecided random set is dropped, not counted
+        # ---- solver-generated inputs for the runtime loop: strings with a GAP (some pattern matches a prefix of length l1, none matches
+        # the prefix of length l2 > l1, some pattern matches the prefix of length l3 > l2): longest match must keep scanning through
+        # non-accepting DFA states.  z3 finds them, the real Matcher runs them (and the witness followed by each representative).
+        gap_cases = []
+        for (l1, l2, l3) in itertools.combinations(range(1, Lmax + 1), 3):
+            gr, gm = solver.check(*cons, A[l1], z3.Not(A[l2]), A[l3])
+            if gr == z3.sat:
+                gw = al.decode(X.z3_unescape(X.model_string(gm, s)))
+                gap_cases.append(gw)
+        for gw in gap_cases:
+            for text in [gw] + [gw + al.decode(al.rep(b)) for b in al.valid_blocks[:4]]:
+                st, sstat = spec_tokenize(sl, text)
+                it, istat = impl_tokenize(lx, il, text)
+                traces += 1
+                gaps_run += 1
+                if (st, sstat) != (it, istat):
+                    violations.append(("%s:gap" % spec.name, "terminal set %s, input %r (longest match lies beyond a non-matching prefix): documented tokenization %s/%s, real generated lexer gives %s/%s" %
+                                       (spec.name, text, st, sstat, it, istat), {"grammar": LX.to_lalrpop(spec), "input": text, "documented": [st, sstat], "observed": [it, istat]}))
+                    break
         # ---- native validation of the loop: all strings up to length 3 over block representatives + separators
         reps = []
         for b in al.valid_blocks:
@@ -182,10 +202,10 @@ def run(tier):
                       assumptions=["winner of the implementation := longest prefix matched by any emitted pattern, then the LARGEST pattern index (what Matcher::next computes); winner of the documentation := "
                                    "longest prefix matched by any source pattern, then earlier rung > later, literal > regex, implicit \\s+ skip above all when no skip rule exists",
                                    "one lexing step from an arbitrary position is decided symbolically (the Matcher keeps no state but the remaining text); whole tokenizations, byte-offset spans, skipping and "
-                                   "InvalidToken positions are compared on native runs", "patterns matching the empty string are excluded here (C08)",
+                                   "InvalidToken positions are compared on native runs; among them solver-generated inputs whose longest match lies beyond a non-matching prefix", "patterns matching the empty string are excluded here (C08)",
                                    "regex semantics = regex-syntax HIR; regex-automata internals trusted"],
                       bounds={"input_code_points": Lmax, "outside": "inputs longer than %d code points in the symbolic query; terminal sets outside the corpus" % Lmax},
-                      extra={"traces_validated_against_impl": traces})
+                      extra={"traces_validated_against_impl": traces, "solver_generated_gap_inputs_run_natively": gaps_run})
 
 
 def replay(path):
